@@ -203,7 +203,8 @@ def run_reduce(c):
     rows = []
     if c["has_rows"]:
         rows.append(("s0", dict(is_sparse=True, is_choice=False, is_continuous=False)))
-        rows.append(("a0", dict(is_sparse=True, is_choice=True, is_continuous=False)))
+        if c.get("sparse_choice", True):     # filters may restrict states only: then there is no restricted choice
+            rows.append(("a0", dict(is_sparse=True, is_choice=True, is_continuous=False)))
     for i, (ch, cont) in enumerate(zip(c["is_choice"], c["is_cont"], strict=True)):
         rows.append((f"v{i}", dict(is_sparse=False, is_choice=bool(ch), is_continuous=bool(cont))))
     rows.append(("ccont", dict(is_sparse=False, is_choice=True, is_continuous=True)))   # continuous choice: no axis
@@ -670,14 +671,17 @@ def run_lifecycle(c):  # noqa: C901, PLR0912, PLR0915
         def mk_functions():
             f1, tmpl = get_lcm_function(model, targets="solve", debug_mode=False, jit=bool(c.get("jit", True)))
             f2, _ = get_lcm_function(model, targets="solve_and_simulate", debug_mode=False, jit=bool(c.get("jit", True)))
-            return f1, f2, tmpl
-        f_solve, f_sim, tmpl = stage("functions", mk_functions)
+            f3, _ = get_lcm_function(model, targets="simulate", debug_mode=False, jit=bool(c.get("jit", True)))
+            return f1, f2, f3, tmpl
+        f_solve, f_sim, f_sim_only, tmpl = stage("functions", mk_functions)
         params = MDL.params(m)
-        stage("solve", lambda: f_solve(params))
+        solved = stage("solve", lambda: f_solve(params))
         from .drive import _init_arrays
         from fractions import Fraction as F
         init = {k: [F(x[0], x[1]) for x in v] for k, v in c["init"].items()}
         stage("simulate", lambda: f_sim(params, initial_states=_init_arrays(m, init), seed=c.get("seed", 0)))
+        stage("resimulate", lambda: [f_sim_only(params, initial_states=_init_arrays(m, init), vf_arr_list=solved, seed=s_)
+                                     for s_ in (c.get("seed", 0), c.get("seed", 0) + 1)])
     except _Stop:
         pass
     out = {k: v for k, v in c.items() if k != "mdl"}
